@@ -35,6 +35,9 @@ pub enum Req {
     CalcMissingRate,
     CalcUnconfiguredYear,
     CalcEmpty,
+    /// the ledger text with something around it that the DSL reader itself must judge: leading blank
+    /// lines before a corrupted line (error position), or a trailing form feed / NBSP (not valid DSL)
+    Padded(u8),
     CalcOverflow,
     Explain(u16),
     ExplainMissing,
@@ -72,8 +75,9 @@ fn arb_req() -> BoxedStrategy<Req> {
         6 => (prop_oneof![2 => Just(None), 1 => (2014i32..2026).prop_map(Some)], any::<bool>()).prop_map(|(year, json_input)| Req::Calc { year, json_input }),
         2 => Just(Req::CalcUncovered),
         1 => Just(Req::CalcMissingRate),
-        1 => Just(Req::CalcUnconfiguredYear),
+        2 => Just(Req::CalcUnconfiguredYear),
         1 => Just(Req::CalcEmpty),
+        2 => (0u8..6).prop_map(Req::Padded),
         1 => Just(Req::CalcOverflow),
         4 => any::<u16>().prop_map(Req::Explain),
         1 => Just(Req::ExplainMissing),
@@ -120,6 +124,8 @@ fn strat(t: Tier) -> BoxedStrategy<Session> {
 const FX_CURS: [&str; 6] = ["USD", "EUR", "JPY", "usd", "Chf", "AUD"];
 
 struct Built {
+    /// "line:column" the library's own parse error points at (the MCP error must point there too)
+    expect_err_pos: Option<String>,
     msg: Value,
     /// None for notifications
     id: Option<i64>,
@@ -144,6 +150,7 @@ fn build(s: &Session, order: &[usize]) -> Vec<Built> {
     for (pos, &i) in order.iter().enumerate() {
         let id = 100 + pos as i64;
         let r = &s.reqs[i];
+        let mut pending_pos: Option<String> = None;
         let (msg, expect_ok, f7): (Value, Option<bool>, bool) = match r {
             Req::Parse { dsl: use_dsl } => (tool_call(id, "parse_transactions", json!({"transactions": if *use_dsl { dsl.clone() } else { jtxt.clone() }})), Some(true), false),
             Req::ParseInvalid(k) => {
@@ -207,8 +214,25 @@ fn build(s: &Session, order: &[usize]) -> Vec<Built> {
             }
             Req::CalcUncovered => (tool_call(id, "calculate_report", json!({"transactions": "2020-01-01 BUY ZZZ 1 @ 1\n2020-02-01 SELL ZZZ 5 @ 1"})), Some(false), false),
             Req::CalcMissingRate => (tool_call(id, "calculate_report", json!({"transactions": "2020-01-01 BUY ZZZ 1 @ 1 XAU\n2020-02-01 SELL ZZZ 1 @ 1 XAU"})), Some(false), false),
-            Req::CalcUnconfiguredYear => (tool_call(id, "calculate_report", json!({"transactions": "1999-01-01 BUY ZZZ 1 @ 1\n1999-02-01 SELL ZZZ 1 @ 2"})), Some(false), false),
+            Req::CalcUnconfiguredYear => (tool_call(id, "calculate_report", json!({"transactions": "1999-01-01 BUY ZZZ 9 @ 1\n1999-02-01 SELL ZZZ 1 @ 2\n2001-02-01 SELL ZZZ 1 @ 2\n2003-02-01 SELL ZZZ 1 @ 2\n2005-02-01 SELL ZZZ 1 @ 2\n2007-02-01 SELL ZZZ 1 @ 2\n2009-02-01 SELL ZZZ 1 @ 2"})), Some(false), false),
             Req::CalcEmpty => (tool_call(id, "calculate_report", json!({"transactions": "# nothing"})), Some(false), false),
+            Req::Padded(k) => {
+                let text = match k % 3 {
+                    0 => format!("\n\n\n{dsl}\n2020-01-02 BOGUS AAA 1 @ 1\n"),
+                    1 => format!("{dsl}\n\u{c}"),
+                    _ => format!("\u{a0}{dsl}\n"),
+                };
+                let name = if k / 3 == 0 { "calculate_report" } else { "parse_transactions" };
+                // what the DSL reader (and therefore the CLI) says about exactly this text
+                let lib = cgt_core::parser::parse_file(&text);
+                let ok = match &lib {
+                    Ok(txs) if name == "calculate_report" => !txs.is_empty() && matches!(tool::guarded(|| cgt_core::calculator::calculate(txs, None, Some(fx), &cfg)), Ok(Ok(_))),
+                    Ok(txs) => !txs.is_empty(),
+                    Err(_) => false,
+                };
+                pending_pos = lib.err().and_then(|e| e.to_string().split("-->").nth(1).and_then(|r| r.split_whitespace().next().map(String::from)));
+                (tool_call(id, name, json!({"transactions": text})), Some(ok), false)
+            }
             Req::CalcOverflow => (tool_call(id, "calculate_report", json!({"transactions": "2020-01-01 BUY BIG 70000000000000000 @ 70000000000000000"})), None, true),
             Req::Explain(k) => {
                 if disposals.is_empty() {
@@ -269,7 +293,7 @@ fn build(s: &Session, order: &[usize]) -> Vec<Built> {
         if let Some(o) = k.as_object_mut() {
             o.remove("id");
         }
-        out.push(Built { msg, id: if is_notif { None } else { Some(id) }, expect_ok: expect_ok, expect_unanswered_f7: f7, key: k.to_string() });
+        out.push(Built { expect_err_pos: pending_pos, msg, id: if is_notif { None } else { Some(id) }, expect_ok: expect_ok, expect_unanswered_f7: f7, key: k.to_string() });
     }
     out
 }
@@ -470,6 +494,16 @@ fn judge(built: &[Built], out: &RunOut, dsl: &str, known_f7: &mut bool, label: &
             Some(resp) => {
                 if resp.get("jsonrpc").and_then(|x| x.as_str()) != Some("2.0") || (resp.get("result").is_none() && resp.get("error").is_none()) {
                     return Err(Verdict::fail(format!("[{label}] response to {id} is neither result nor error: {}", truncate(&resp.to_string(), 300))));
+                }
+                if let (Some(pos), false) = (&b.expect_err_pos, resp_ok(resp)) {
+                    let msg = resp.pointer("/error/message").and_then(|m| m.as_str()).unwrap_or("");
+                    if !msg.contains(&format!("--> {pos}")) {
+                        return Err(Verdict::fail(format!(
+                            "[{label}] the DSL reader reports the error of this text at {pos}, the MCP answer points elsewhere: {}\nrequest {}",
+                            truncate(msg, 300),
+                            truncate(&b.msg.to_string(), 400)
+                        )));
+                    }
                 }
                 if let Some(want) = b.expect_ok {
                     if resp_ok(resp) != want {
